@@ -16,8 +16,11 @@ sys.dont_write_bytecode = True
 VERIF = os.path.dirname(os.path.dirname(os.path.abspath(__file__)))
 REPO = os.environ.get('VF_REPO', '/repo')
 REPO_SRC = os.path.join(REPO, 'src')
-EVIDENCE_DIR = os.path.join(VERIF, 'evidence')
-REPLAY_DIR = os.path.join(VERIF, 'replays')
+# runs against a scratch copy (VF_REPO set, used for seeded-change experiments) never touch the
+# evidence of the real tree
+_ALT = REPO != '/repo'
+EVIDENCE_DIR = os.path.join('/tmp/vf_alt', 'evidence') if _ALT else os.path.join(VERIF, 'evidence')
+REPLAY_DIR = os.path.join('/tmp/vf_alt', 'replays') if _ALT else os.path.join(VERIF, 'replays')
 KNOWN_FILE = os.path.join(VERIF, 'known_findings.json')
 NCPU = int(os.environ.get('VF_JOBS', '0')) or min(16, os.cpu_count() or 1)
 
